@@ -12,9 +12,18 @@ Chain of the argument:
 The correspondence check (tools/impl_theory.py) establishes, on every run, that the literal valuation
 of the real implementation in every answer set solves `eqn` on all reachable pairs, and that each
 theory atom equals its root formula.
+  * `theory_atoms_total_world`  the lifting to stable models, for any host program (generic answer-set programs,
+                        TelProofs/Meta/DefExt.lean): when the program mentions the theory-atom literals only in rule
+                        bodies and the translation adds only choices on fresh atoms, integrity constraints and
+                        negative-body definitions, `X` is a stable model of the whole iff `X` is good for the added part
+                        (by the theorems above: every fresh atom carries its LTL_f value on `X`'s trace) and `X` cut to
+                        the program's atoms is a stable model of the program with each theory atom *replaced by its
+                        truth value in `X` itself* — exactly how the specification `TSM` reads a `&tel` body literal
+                        (`BLit.holds` evaluates it on the total trace in both worlds).
 -/
 import TelProofs.Tseitin
 import TelProofs.DocEq
+import TelProofs.Meta.DefExt
 
 namespace TelProofs.C03
 open TelSpec TelModel TelProofs
@@ -57,6 +66,13 @@ theorem C03_redecided (s : SForm) (hg : GoodAtoms s) :
   obtain ⟨f, hc, hval⟩ := C03_value s hg
   exact ⟨f, hc, fun h tr lv v v' S S' sys sys' k hS hS' =>
     ⟨hval h tr lv v S sys k hS, hval (h+1) tr lv v' S' sys' k hS'⟩⟩
+
+/-- (d) lifting to stable models of an arbitrary host program: theory atoms in rule bodies are evaluated in the
+    total world of the candidate answer set -/
+theorem theory_atoms_total_world {α : Type} [DecidableEq α] (P E : List (DefExt.Rule α)) (N : α → Bool)
+    (hP : ∀ r ∈ P, ∀ a ∈ r.head, N a = false) (hE : ∀ r ∈ E, DefExt.EShape N r) (X : DefExt.Interp α) :
+    DefExt.Stable (P ++ E) X ↔ (DefExt.Good E N X ∧ DefExt.Stable (DefExt.evalProg N X P) (DefExt.cut N X)) :=
+  DefExt.stable_iff_eval P E N hP hE X
 
 /-! ### non-vacuity -/
 
